@@ -1596,3 +1596,107 @@ func ruleHuffmanStructure(p *Prog, r *Out) {
 	}
 	r.check(okRoot, "table built from the literals", "?", "rootHuffmanNode adds (i, huffmanCodes[i], huffmanCodeLen[i])", "the decode table is no longer built from (symbol i, huffmanCodes[i], huffmanCodeLen[i])")
 }
+
+func init() {
+	register(&Rule{
+		Name: "dec-short-input-signal", Props: []string{"C01", "C03", "C16", "C02"}, Engine: "AST", Floor: 5,
+		Doc: "every place where the HPACK decoder gives up for lack of input (empty cursor, string longer than what is left, integer continuation running off the end) reports the one sentinel the frame-by-frame callers recognise as 'the rest is in the next frame'; any other error there turns a header block that was merely cut at that byte into COMPRESSION_ERROR. Index lookups that can yield nil are nil-checked with a rejecting return before use",
+		Run: ruleDecShortInput,
+	})
+}
+
+func ruleDecShortInput(p *Prog, r *Out) {
+	for _, name := range []string{"readInt", "readString", "(*HPACK).nextField"} {
+		fd := p.decl(name)
+		if fd == nil {
+			r.undecided(name, "?", "no longer resolves")
+			continue
+		}
+		r.fn(name)
+		n := 0
+		ast.Inspect(fd.Body, func(x ast.Node) bool {
+			ifs, ok := x.(*ast.IfStmt)
+			if !ok {
+				return true
+			}
+			c, ok := p.canonCmp(ifs.Cond, nil)
+			if !ok {
+				return true
+			}
+			short := false
+			// len(b) == 0   |   len(b) < n
+			if c.Op == "eq" && len(c.L.T) == 1 && c.L.C == 0 {
+				for t := range c.L.T {
+					if strings.HasPrefix(t, "len(") {
+						short = true
+					}
+				}
+			}
+			if c.Op == "le" && len(c.L.T) == 2 {
+				for t, co := range c.L.T {
+					if strings.HasPrefix(t, "len(") && co == 1 {
+						short = true
+					}
+				}
+			}
+			if !short {
+				return true
+			}
+			for _, s := range ifs.Body.List {
+				rs, ok := s.(*ast.ReturnStmt)
+				if !ok || len(rs.Results) == 0 {
+					continue
+				}
+				last := p.text(rs.Results[len(rs.Results)-1])
+				if last == "nil" {
+					continue // "nothing to decode" is not an error
+				}
+				n++
+				r.check(last == "ErrUnexpectedSize", fmt.Sprintf("%s short input `%s`", name, p.text(ifs.Cond)), p.pos(ifs.Pos()), "returns ErrUnexpectedSize",
+					fmt.Sprintf("%s answers running out of input (`%s`) with `%s` instead of ErrUnexpectedSize: a header block that a frame boundary cuts at exactly this point is refused as a decoding error instead of being continued in the next frame", name, p.text(ifs.Cond), last))
+			}
+			return true
+		})
+		// loop exhaustion in readInt: the return after the loop
+		if name == "readInt" {
+			last := fd.Body.List[len(fd.Body.List)-1]
+			if rs, ok := last.(*ast.ReturnStmt); ok && len(rs.Results) == 3 {
+				n++
+				r.check(p.text(rs.Results[2]) == "ErrUnexpectedSize", "readInt continuation runs off the end", p.pos(rs.Pos()), "returns ErrUnexpectedSize", "readInt answers an integer whose continuation octets run off the end of the input with "+p.text(rs.Results[2])+" instead of ErrUnexpectedSize")
+			}
+		}
+	}
+	// peek results are nil-checked
+	fd := p.decl("(*HPACK).nextField")
+	if fd == nil {
+		return
+	}
+	ast.Inspect(fd.Body, func(x ast.Node) bool {
+		as, ok := x.(*ast.AssignStmt)
+		if !ok || len(as.Lhs) != 1 || len(as.Rhs) != 1 {
+			return true
+		}
+		c, ok := as.Rhs[0].(*ast.CallExpr)
+		if !ok || p.calleeOf(c) != "(*HPACK).peek" {
+			return true
+		}
+		v := p.text(as.Lhs[0])
+		pm := p.pmFor(fd)
+		var list []ast.Stmt
+		switch b := pm[as].(type) {
+		case *ast.BlockStmt:
+			list = b.List
+		case *ast.CaseClause:
+			list = b.Body
+		}
+		i := stmtIndexIn(list, as)
+		okk := false
+		if i >= 0 && i+1 < len(list) {
+			if ifs, ok := list[i+1].(*ast.IfStmt); ok && squash(p.text(ifs.Cond)) == v+"==nil" && isRejectingBody(p, ifs.Body) {
+				okk = true
+			}
+		}
+		r.check(okk, "peek result nil-checked", p.pos(as.Pos()), "if "+v+" == nil { return error } follows", "the result of peek (nil for index 0 or an index past the tables) is used without a rejecting nil check right after the lookup: a peer-chosen index dereferences nil")
+		return true
+	})
+}
